@@ -212,3 +212,36 @@ Section UserArgs.
     - intros Hne. exact (positional_raises_an_arg_flag ds spec i argv opts' args' u Hi Hsane Hnd Hv Hp Hne).
   Qed.
 End UserArgs.
+
+(** * C02: every binding of an accepted line has a variable to go to *)
+From MowCli Require Import SortProofs NamedProofs.
+
+Section Containers.
+  Variable parse_float : str -> option str.
+  Variable getenv : str -> str.
+
+  (** nothing is bound to a variable that does not exist: the option of a binding [(KO k, v)] is the k-th option
+      container the parse returns, the argument of a binding [(KA k, v)] the k-th argument container *)
+  Theorem every_binding_has_a_container ds spec i argv opts' args' bs key v :
+    do_init parse_float getenv ds spec = IOk i ->
+    fsm_parse parse_float i argv = PAccept opts' args' ->
+    fsm_apply (optinfo_of (i_opts i)) (i_graph i) (i_start i) argv = AOk bs ->
+    In (key, v) bs ->
+    match key with
+    | KO k => exists c, nth_error opts' k = Some c
+    | KA k => exists c, nth_error args' k = Some c
+    end.
+  Proof.
+    intros Hi Hp Hrun Hin. destruct key as [k|k].
+    - assert (Hlen : length opts' = length (i_opts i)).
+      { unfold fsm_parse in Hp. rewrite Hrun in Hp.
+        destruct (fill parse_float (i_opts i) 0 KO bs) as [o1|] eqn:H1; [|discriminate].
+        destruct (fill parse_float (i_args i) 0 KA bs) as [a1|]; [|discriminate].
+        injection Hp as <- _. eapply fill_length; exact H1. }
+      destruct (bound_options_are_bindable (i_opts i) _ _ _ _ k v Hrun Hin) as (c & Hc & _).
+      assert (Hk : k < length opts') by (rewrite Hlen; apply nth_error_Some; congruence).
+      destruct (nth_error opts' k) as [c'|] eqn:Hn; [eauto | apply nth_error_None in Hn; lia].
+    - pose proof (bound_arguments_are_declared parse_float getenv ds spec i argv opts' args' bs k v Hi Hp Hrun Hin) as Hk.
+      destruct (nth_error args' k) as [c'|] eqn:Hn; [eauto | apply nth_error_None in Hn; lia].
+  Qed.
+End Containers.
